@@ -261,8 +261,10 @@ func encPrepareRequest(w *wbuf, r *rng.R, sr bool, cs *consensusSpec) {
 	w.u64(ts)
 	w.u64(nonce)
 	n := r.Intn(5)
-	if r.Chance(1, 10) {
-		n = 300
+	if r.Chance(1, 6) {
+		// full and nearly full blocks: the default per-block limit is 512, the
+		// inventory limit (which is not the one that applies here) 500
+		n = []int{300, 499, 500, 501, 511, 512, 513, 2000}[r.Intn(8)]
 	}
 	hs := hashes(r, n)
 	w.varint(uint64(n))
